@@ -11,9 +11,11 @@ package main
 import (
 	"fmt"
 	"go/ast"
+	"go/constant"
 	"go/token"
 	"go/types"
 	"sort"
+	"strconv"
 	"strings"
 )
 
@@ -730,13 +732,69 @@ func (n *mbNorm) callStr(x *ast.CallExpr, depth int) string {
 		return s
 	}
 	var as []string
-	for _, a := range x.Args {
+	fmtIdx := -1
+	if fn != nil && fn.Pkg() != nil && fn.Pkg().Path() == "fmt" && strings.HasSuffix(fn.Name(), "f") {
+		if sig, ok := fn.Type().(*types.Signature); ok && sig.Variadic() && sig.Params().Len() >= 2 {
+			fmtIdx = sig.Params().Len() - 2
+		}
+	}
+	for i, a := range x.Args {
 		if fn != nil && n.l != nil && fn.Pkg() == n.l.pkg.Types && n.isPlumbing(a) {
 			continue
+		}
+		if i == fmtIdx {
+			if tv, ok := n.info.Types[a]; ok && tv.Value != nil && tv.Value.Kind() == constant.String {
+				as = append(as, strconv.Quote(n.fmtCanon(constant.StringVal(tv.Value), x.Args[i+1:])))
+				continue
+			}
 		}
 		as = append(as, n.strD(a, depth))
 	}
 	return n.strD(x.Fun, depth) + "(" + strings.Join(as, ", ") + ")"
+}
+
+// fmtCanon: a format string with the plain verb of every string-typed operand
+// spelled %s (for a string, %v and %s print the same text).
+func (n *mbNorm) fmtCanon(f string, ops []ast.Expr) string {
+	var b strings.Builder
+	k := 0
+	for i := 0; i < len(f); i++ {
+		if f[i] != '%' {
+			b.WriteByte(f[i])
+			continue
+		}
+		j := i + 1
+		plain := true
+		for j < len(f) && strings.ContainsRune("+-# 0123456789.[]*", rune(f[j])) {
+			if f[j] == '*' {
+				k++
+			}
+			plain = false
+			j++
+		}
+		if j >= len(f) {
+			b.WriteString(f[i:])
+			break
+		}
+		if f[j] == '%' {
+			b.WriteString(f[i : j+1])
+			i = j
+			continue
+		}
+		verb := f[j]
+		if plain && verb == 'v' && k < len(ops) {
+			if t := n.info.TypeOf(ops[k]); t != nil {
+				if bt, ok := t.Underlying().(*types.Basic); ok && bt.Info()&types.IsString != 0 {
+					verb = 's'
+				}
+			}
+		}
+		b.WriteString(f[i:j])
+		b.WriteByte(verb)
+		k++
+		i = j
+	}
+	return b.String()
 }
 
 // isPlumbing: an argument that merely forwards a parameter of the enclosing
